@@ -41,7 +41,7 @@ CHECKS = {
 
 CHECKS.update({
     "C01": dict(engine="dawn", category="exploration",
-                text="Seeded deterministic simulation of real projects on a real (tmpfs) disk: generated multi-package projects (helper modules, closures, defaults, globals, flags, generated sources) x histories of 3-15 operations (semantic edits of every item kind, no-op edits, dependency-edge edits, deletions and renames inside source directories, partial builds of sub-targets, failing builds, dry runs, GC, index loads), every build = fresh Load + Run in a fresh simulated process. Oracle after every build that reports success: every function target in the closure last executed successfully with exactly its current inputs (independent reference model over the project spec), after the last successful execution of each dependency, with its outputs present; plus a byte comparison with a real from-scratch build of the same tree.",
+                text="Seeded deterministic simulation of real projects on a real (tmpfs) disk: generated multi-package projects (helper modules, closures, defaults, globals, flags, generated sources) x histories of 3-15 operations (semantic edits of every item kind, no-op edits, dependency-edge edits, deletions and renames inside source directories, files added to / deleted from glob()-matched source sets, partial builds of sub-targets, failing builds, builds interrupted at a seeded step, builds under random I/O errors, dry runs, GC, index loads), every build = Load + Run in a fresh simulated process, or watch-style Reload of the previous Project, or REPL-style run on the previous loaded Project (only after source-file edits). Oracle after every build that reports success: every function target in the closure last executed successfully with exactly its current inputs (independent reference model over the project spec), after the last successful execution of each dependency, with its outputs present; plus a byte comparison with a real from-scratch build of the same tree.",
                 note="The reference model (harness/dawn/gen.go inputItems, ~150 lines) is trusted; target bodies are a harness builtin standing for external commands. Sampling, not proof.",
                 technique="deterministic simulation: seeded histories and schedules against a reference model of target inputs; from-scratch differential build",
                 design="§4 C01", real=REAL_E2,
@@ -55,41 +55,41 @@ CHECKS.update({
                 rule="as C01; counters.noop_rebuilds_checked = rebuilds on which the oracle was evaluated",
                 assumptions=["inserting an unrelated global into a BUILD file of the closure is not a no-op (compiled global indices shift)"]),
     "C03": dict(engine="dawn", category="fault_enumeration",
-                text="For each sampled (project, history prefix, schedule): the last build is run once uninterrupted while its persistent-effect boundaries are recorded (every simulated os create/write/close/rename/mkdir/remove, every body start/yield/write/end); then, replaying the same tapes from a snapshot of the tree, the simulated process is killed at EVERY boundary (and inside every write: torn), or every non-empty subset (<=15) of executing bodies fails, or EVERY I/O operation fails with ENOSPC/EIO/EACCES/EMFILE, or (compose) the recovery build is killed again. After each: Load with and without the index must succeed, the next fault-free build must succeed, satisfy the C01 oracle, re-execute every body that started but did not finish, and leave generated files byte-equal to the uninterrupted run.",
+                text="For each sampled (project, history prefix, schedule): the last build is run once uninterrupted while its persistent-effect boundaries are recorded (every simulated os create/write/close/rename/mkdir/remove, every body start/yield/write/end); then, replaying the same tapes from a snapshot of the tree, the simulated process is killed at EVERY boundary (and inside every write: torn), or every non-empty subset (<=15) of executing bodies fails, or EVERY I/O operation fails with ENOSPC/EIO/EACCES/EMFILE, or (compose) the recovery build is killed again, or (crash-revert) the last edit is undone after the kill, or (diskfull) every create/write fails from operation k on while bodies fail after writing their outputs; failed targets are repaired by partial builds first in half of the failure patterns; some interrupted builds are forced (--always). After each: Load with and without the index must succeed, the next fault-free build must succeed, satisfy the C01 oracle, re-execute every body that started but did not finish, and leave generated files byte-equal to the uninterrupted run.",
                 note="Exhaustive over single fault points per sampled scenario (a stratified sample of boundaries above 160 in the quick tier), seeded over scenarios. Process crash, not power loss: completed system calls persist (dawn never fsyncs).",
                 technique="deterministic simulation: crash-point / failure-subset / I-O-error enumeration with replayed schedules, recovery oracle",
                 design="§4 C03", real=REAL_E2,
                 rule="one case = one scenario with all its fault points; simulated runs count every faulted process and every recovery load/build; distinct_nontrivial = distinct (project, trace) hashes incl. the fault",
                 assumptions=["crash = every goroutine of the simulated process stops at a yield point; only the disk survives"]),
     "C06": dict(engine="dawn", category="exploration",
-                text="Load-only simulation of generated load graphs (1-5 packages, 0-6 helper modules; chains, diamonds, helpers shared by several packages that load others, self-loads, 2- and n-cycles, BUILD files loading each other), modules yield 0-3 times at top level so that loaders meet mid-load. Oracle: ModuleLoading <=1 per module, no deadlock or budget exhaustion, acyclic => Load succeeds with exactly the model's targets and flags (twice, under different tapes), cyclic => Load fails with an error mentioning the cyclic dependency.",
+                text="Load-only simulation of generated load graphs (1-5 packages, 0-6 helper modules; chains, diamonds, helpers shared by several packages that load others, self-loads, 2- and n-cycles, BUILD files loading each other), modules yield 0-3 times at top level so that loaders meet mid-load; one module in ten fails while loading (fail(), syntax error or undefined name) with other loaders waiting for it. Oracle: ModuleLoading <=1 per module, no deadlock or budget exhaustion, acyclic => Load succeeds with exactly the model's targets and flags (twice, under different tapes), cyclic => Load fails with an error mentioning the cyclic dependency.",
                 note="Granularity: sync points and sim_yield calls; module.done's unlocked writes before taking the lock are executed in one order only.",
                 technique="deterministic simulation: seeded interleavings of per-package loader goroutines, deadlock detection, graph model",
                 design="§4 C06", real=REAL_E2,
                 rule="one case = one load graph loaded twice; probes.cyclic_load_graph counts cyclic ones",
                 assumptions=[]),
     "C08": dict(engine="dawn", category="exploration",
-                text="Function zoo: recursion and mutual recursion (within a module and across loaded modules), closures, three-deep nested defs, lambdas, comprehensions, defaults of every value kind, *args/**kwargs, references to host/package/Cache()/os/sh/json and to other target objects, collections of 0..2500 elements at nested positions, shared and self-referential values, every integer width boundary. Oracle: the worker process survives (a death is attributed to the journalled scenario and confirmed in a fresh process), load and build report no fingerprinting error, a second load under other tapes re-executes nothing, and for each referenced item in turn a semantic edit re-executes every referencing target.",
+                text="Function zoo: recursion and mutual recursion (within a module and across loaded modules), closures, three-deep nested defs, lambdas, comprehensions, defaults of every value kind, *args/**kwargs, references to host/package/Cache()/os/sh/json and to other target objects, collections of 0..2500 elements at nested positions, shared and self-referential lists and dicts, every integer width boundary, int/float and int/bool pairs that compare equal, special floats, >255 memoized objects, a tuple with a prefix slice of itself, lists whose only varying elements sit at batch boundaries, two closures from one def, helpers defined below the target, functions held in struct attributes. Oracle: the worker process survives (a death is attributed to the journalled scenario and confirmed in a fresh process), load and build report no fingerprinting error, a second load under other tapes re-executes nothing, and for each referenced item in turn a semantic edit re-executes every referencing target.",
                 note="A fatal runtime error (stack overflow) cannot be recovered in-process; the driver reports it as class worker-death.",
                 technique="deterministic simulation: generated function shapes, crash attribution by journal, metamorphic reload/edit oracles",
                 design="§4 C08", real=REAL_E2,
                 rule="one case = one zoo project with 2 + (number of edits) builds of //:all",
                 assumptions=[]),
     "C13": dict(engine="dawn", category="exploration",
-                text="C01-style histories with dry runs inserted before real builds of the same label. Oracle: between the end of a dry run's load and the end of its run the whole tree (project files and .dawn) is byte-identical and no body starts; the set of targets it reports evaluating equals that of the following real build (when that fails: a subset relation apart from targets downstream of the failure); and the same history without the dry runs (same tapes) executes the same bodies in every real build and ends with identical generated files.",
+                text="C01-style histories with dry runs inserted before real builds of the same label, dry runs over an unreadable source (self-referential symlink), and the REPL/watch pattern: dry run, optional Reload, then Run with nil options on the same loaded Project. Oracle: between the end of a dry run's load and the end of its run the whole tree (project files and .dawn) is byte-identical and no body starts; the set of targets it reports evaluating equals that of the following real build (when that fails: a subset relation apart from targets downstream of the failure); and the same history without the dry runs (same tapes) executes the same bodies in every real build and ends with identical generated files.",
                 note="The tree hash covers names and contents, not timestamps.", technique="deterministic simulation: twin histories with and without dry runs, tree hashing, event comparison",
                 design="§4 C13", real=REAL_E2, rule="one case = one history run twice (with and without its dry runs)", assumptions=[]),
     "C14": dict(engine="dawn", category="exploration",
-                text="Histories with target additions/removals (a removed label is never re-created), failing builds and GC at arbitrary points, run twice with identical tapes, with and without the collections: every build must execute the same bodies and the final generated files must be identical. After each collection: nothing outside .dawn/build changed, temp/ is empty, every record of a live target or source is still there byte-identical, and no other record remains; the live set is obtained from a from-scratch load+build of every label of the same tree (the harness does not mirror dawn's record path scheme).",
+                text="Histories with target additions/removals (a removed label is never re-created), failing builds, builds interrupted before the first collection (leaving temporaries), GC at arbitrary points through full or index-based loads (as `dawn gc` does) and sometimes followed by a run on the project the collection loaded, run twice with replayed tapes: with the collections, and with a plain load wherever the first history collects: every build must execute the same bodies and the final generated files must be identical. After each collection: nothing outside .dawn/build changed, temp/ is empty, every record of a live target or source is still there byte-identical, and no other record remains; the live set is obtained from a from-scratch load+build of every label of the same tree (the harness does not mirror dawn's record path scheme).",
                 note="", technique="deterministic simulation: twin histories with and without GC, record-set comparison against a from-scratch state",
                 design="§4 C14", real=REAL_E2, rule="one case = one history run twice; counters.collections_fully_checked", assumptions=[]),
     "C15": dict(engine="dawn", category="fault_enumeration",
-                text="Stored bytes as the fault: (records) for a built project (optionally with a pending edit) every record file and index.json gets single-byte corruptions (xor 0x01, xor 0x80, 0x00, 0xff, case flip) and truncations at every offset (strided above 120 bytes in the quick tier), each followed by a simulated Load + Build: allowed outcomes are a reported load error, a reported build error, or success that satisfies the C01 oracle; (stream) every environment encoding found in the records is handed to the real decoder with dawn's unpickler through a faulting io.Reader - every single-byte corruption at every offset, EOF at every offset, 1- and 3-byte reads, seeded multi-byte garbage: the result must be (non-nil value, nil) or (_, error), no panic. Streams whose declared string lengths exceed the input are skipped and counted, as the property excludes them.",
+                text="Stored bytes as the fault: (records) for a built project (optionally with a pending edit) every record file and index.json gets single-byte corruptions (xor 0x01, xor 0x80, 0x00, 0xff, case flip), truncations at every offset (strided above 120 bytes in the quick tier) and seeded multi-byte garbage, each followed by a simulated Load + Build: allowed outcomes are a reported load error, a reported build error, or success that satisfies the C01 oracle; (stream) every environment encoding found in the records is handed to the real decoder with dawn's unpickler through a faulting io.Reader - every byte value at every offset (a stride of offsets in the quick tier), EOF at every offset, 1- and 3-byte reads, seeded multi-byte garbage: the result must be (value, nil) with a value that can be traversed without meeting a nil, or (_, error); no panic; a decoder or loader that does not return within 15 / 25 s of real time is a violation (hang). Streams whose declared string lengths exceed the input are skipped and counted, as the property excludes them.",
                 note="Exhaustive over single faults per sampled artefact in the stream mode and in the thorough tier; worker deaths are attributed by journal.",
                 technique="deterministic simulation: stored-byte and stream fault enumeration against the real decoder and loader",
                 design="§4 C15", real=REAL_E2, rule="one case = one project with all its corruptions; distinct_nontrivial counts distinct corrupted inputs / faulted processes", assumptions=[]),
     "C18": dict(engine="dawn", category="exploration",
-                text="Histories of builds (failing bodies, dependency cycles, unknown dependencies, dry runs, always, two runs on one loaded project) with seeded chunking of body output (1-byte, mid-line, many lines per write, empty writes). Oracle per run: each label's events match UpToDate | Evaluating Print* (Succeeded|Failed) | Failed(missing or cyclic dependency); printed lines equal the text the body wrote split at newlines, once, in order; evaluating reported exactly when the body ran; exactly one run-done per run, after the requested target's last event, carrying the build's error.",
+                text="Histories of builds (failing bodies, dependency cycles, unknown dependencies, dry runs, always, two runs on one loaded project) with seeded chunking of body output written through one reused buffer (1-byte, mid-line, many lines per write, empty writes, CRLF, 5000-character lines), one injected I/O error in a fifth of the builds, and real builds right after dry runs (the dry run's evaluating set must equal the bodies that then run). Oracle per run: each label's events match UpToDate | Evaluating Print* (Succeeded|Failed) | Failed(missing or cyclic dependency); printed lines equal the text the body wrote split at newlines, once, in order; evaluating reported exactly when the body ran; exactly one run-done per run, after the requested target's last event, carrying the build's error.",
                 note="When a build fails on a dependency cycle the runner returns while other targets are still finishing; only the requested target's events are required to be complete by run-done in that case. The CLI renderers (package main) are not exercised.",
                 technique="deterministic simulation: event-stream automaton over recorded events, seeded write chunking",
                 design="§4 C18", real=REAL_E2, rule="one case = one history; counters.runs_checked", assumptions=[]),
@@ -98,7 +98,7 @@ CHECKS.update({
                 note="porcupine timeouts (30 s) are counted, never reported.", technique="deterministic simulation + linearizability checking (porcupine) against a sequential reference model",
                 design="§4 C20", real=REAL_E3, rule="one case = one history of <=24 operations", assumptions=["nested once on the same cache from inside a callable self-deadlocks by construction and is not generated"]),
     "C10": dict(engine="mvs", category="exploration",
-                text="Generated universes (1-3 repositories incl. sub-path projects and @v2/@v3 major-version paths, 2-8 projects x 1-5 versions incl. prereleases, requirement edges of any shape incl. diamonds and cycles, occasionally a dangling requirement) resolved by the real BuildList with pgavlin/mvs' 10 par.Work workers as simulated goroutines. Oracle: with no fault injected the result equals an independent reachability/semver-max model exactly (or fails iff a reachable requirement does not exist); repeated under permuted declaration order and names, other map-order and schedule tapes, cold / warm / partially pre-filled caches. In the fault configuration (dial/list/get-revision/fetch errors from the repositories, ENOSPC/EIO/EACCES/EMFILE on the resolver's own file operations) the call may fail but never returns a different map, and once faults stop one more call succeeds.",
+                text="Generated universes (1-3 repositories incl. sub-path projects and @v2/@v3 major-version paths, 2-8 projects x 1-5 versions incl. prereleases, requirement edges of any shape incl. diamonds and cycles, occasionally a dangling requirement) resolved by the real BuildList with pgavlin/mvs' 10 par.Work workers as simulated goroutines. Oracle: with no fault injected the result equals an independent reachability/semver-max model exactly (or fails iff a reachable requirement does not exist); repeated under permuted declaration order and names, other map-order and schedule tapes, cold / warm / partially pre-filled caches, repositories nested below another repository's project directory, and 2-3 resolver processes running concurrently on one cold cache (followed by a warm run on what they left). In the fault configuration (dial/list/get-revision/fetch errors from the repositories, ENOSPC/EIO/EACCES/EMFILE on the resolver's own file operations) the call may fail but never returns a different map, and once faults stop one more call succeeds.",
                 note="The repositories are stubs: their checkout is written with the real os package (no injected I/O faults inside the stub). A poisoned cache left by a half-written checkout is outside the statement.",
                 technique="deterministic simulation: seeded worker interleavings and map orders, injected VCS and I/O faults, metamorphic repeats against a reference model",
                 design="§4 C10", real=REAL_E4, rule="one case = one universe with 2-4 resolutions; distinct by (universe, interleaving) hash", assumptions=[]),
